@@ -151,6 +151,8 @@ class Stranded(Harness):
         # history: another genome with the same chromosome names (other lengths, other bases) was queried earlier in this process
         gs += [dict(kind="ACGTnEncoding", N=3, m=2, api="genomic_sequence", prior_genome=True),
                dict(kind="ACGTnEncoding", N=3, m=2, api="genomic_sequence", chroms=[1, 0], prior_genome=True)]
+        # the intervals went through clip() / replace() before they index the sequence (they are inside their chromosomes: nothing changes)
+        gs += [dict(kind="ACGTnEncoding", N=3, m=2, api="genomic_sequence", chroms=c, via=via) for c in ([0, 1], [1, 0]) for via in ("clip", "replace")]
         # the plain function with EMPTY intervals among the others (start == stop), also next to '-' intervals
         gs += [dict(kind="ascii", N=3, m=2, empty_ok=True), dict(kind="ACGTnEncoding", N=3, m=3, empty_ok=True)]
         if tier == "quick":
@@ -184,7 +186,14 @@ class Stranded(Harness):
             gseq = GenomicSequence.from_dict({"chr1": seq, "chr2": seq[::-1]} if "chroms" in skel else {"chr1": seq})
             iv = StrandedInterval(["chr1" if c == 0 else "chr2" for c in chroms], ctx.arr([x[f"s{i}"] for i in range(m)], "int64"), ctx.arr([x[f"e{i}"] for i in range(m)], "int64"),
                                   EncodedArray(ctx.arr([x[f"neg{i}"] for i in range(m)], "uint8"), StrandEncoding))
-            if skel.get("context_order"):
+            if skel.get("via"):
+                import bionumpy as bnp
+                from bionumpy.genomic_data import GenomicIntervals, GenomeContext
+                context = GenomeContext.from_dict({"chr1": N, "chr2": N})
+                gi = GenomicIntervals.from_fields(context, iv.chromosome, iv.start, iv.stop, iv.strand)
+                gi = gi.clip() if skel["via"] == "clip" else bnp.replace(gi, start=gi.start)
+                out = gseq[gi]
+            elif skel.get("context_order"):
                 from bionumpy.genomic_data import GenomicIntervals, GenomeContext
                 context = GenomeContext.from_dict({"chr2": N, "chr1": N})       # chr2 has code 0 here, chr1 code 1
                 gi = GenomicIntervals.from_fields(context, iv.chromosome, iv.start, iv.stop, iv.strand)
